@@ -74,7 +74,7 @@ pub fn sweep_cases(base: u64, index: u64, st: &mut GenStats) -> (Val, Vec<Case>)
     // ---- formatting, fault-free: every precision 0..=64 and a few large ones, every trait and flag
     for tr in [Tr::Display, Tr::LowerExp, Tr::UpperExp] {
         for plus in [false, true] {
-            for p in (0usize..=64).chain([100, 127, 128, 255, 256, 257, 511, 512, 1000, 1100]) {
+            for p in (0usize..=64).chain([100, 127, 128, 255, 256, 257, 511, 512, 1000, 1100, 3000, 30_000]) {
                 out.push(Case::Fmt(FmtCase { hi, lo, tr, plus, prec: Some(p), sink: SinkPlan::default(), io: None, flags: None }));
             }
         }
